@@ -426,6 +426,13 @@ def run(ck):
             ck.judge(notnull, "C17.3", short(read) + ":drop-none", w, "molecules without labels (None) are dropped before returning",
                      found=T.show(v)[:160], required="opticalMaps[opticalMaps.notnull()]")
     ck.floor("C17.3 return values of the CMAP reader carrying maps", n_full, 1)
+    queries_trimmed(ck, "C17.4")
+    trim_formulae(ck, "C17.5")
+
+
+def queries_trimmed(ck, rule, references=True):
+    """Program stores every query trimmed (first label at 0, length = first to last label) and every reference as read."""
+    p = ck.ctx.p
     # ---- C17.4
     rm = p.get_function("src.program:Program.__init__")
     own_private = lambda callee: callee.cls is rm.cls and callee is not rm and callee.name.startswith("_")
@@ -467,14 +474,15 @@ def run(ck):
         if not is_trim and not (src[0] == "app" and "CmapReader" in src[1]):
             raise AnalysisError(f"{where(rm, qn)}: what is stored in self.queryMaps is not read as reader result / trimmed reader result: "
                                 f"{T.show(qt)[:160]}")
-    ck.judge(bool(is_trim) and src[0] == "app" and src[1].endswith("CmapReader.readQueries"), "C17.4", "Program.__readMaps:queries",
+    ck.judge(bool(is_trim) and src[0] == "app" and src[1].endswith("CmapReader.readQueries"), rule, "Program.__readMaps:queries",
              where(rm, qn), "every query is trimmed (QryLen is measured from the first to the last label)",
              found=T.show(qt)[:200], required="[q.trim() for q in readQueries(...)]")
+    if not references:
+        return
     r_trim, rsrc = trimmed_image(rt)
-    ck.judge(not r_trim and rt[0] == "app" and rt[1].endswith("CmapReader.readReferences"), "C17.4", "Program.__readMaps:references",
+    ck.judge(not r_trim and rt[0] == "app" and rt[1].endswith("CmapReader.readReferences"), rule, "Program.__readMaps:references",
              where(rm, rn), "references keep their original coordinates (not trimmed)", found=T.show(rt)[:200],
              required="readReferences(...) unmodified")
-    trim_formulae(ck, "C17.5")
 
 
 def trim_formulae(ck, rule):
